@@ -132,6 +132,43 @@ def svdstf(env):
         env.holds('scaled rotation block is c* R*', res(M[:, 0:3], M[:, 3:4]) <= res(ck * Rk, tk) * (1 + 1e-9) + 1e-12)
 
 
+@obligation('C17.ICP.iteration', functions=['pypose.module.icp:ICP.forward'], max_paths=8,
+            note='knn and svdtf by contract (abstract distances / abstract transform); a one-iteration controller')
+def icp_iter(env):
+    """one ICP iteration on a BATCH of two clouds: the stopping controller is given one loss per batch element - the mean closest-point distance
+    of THAT element - so that every element is iterated until it has converged itself; the transform of the iteration is svdtf of the
+    current points against their nearest targets"""
+    icp = env.load('pypose.module.icp'); T = env.T
+    B, N = 2, 2
+    src = T.stack([T.stack([env.vec(f's{b}{i}', 3, regimes=('generic',)) for i in range(N)], 0) for b in range(B)], 0)
+    tgt = T.stack([T.stack([env.vec(f't{b}{i}', 3, regimes=('generic',)) for i in range(N)], 0) for b in range(B)], 0)
+    dist = T.stack([T.stack([env.scalar(f'd{b}{i}', positive=True, regimes=('generic',)) for i in range(N)], 0) for b in range(B)], 0)      # (B, N, 1)
+    idx = T.tensor([[[1], [0]], [[0], [1]]]) if env.sym else T.tensor([[[1], [0]], [[0], [1]]], dtype=T.int64)
+    seen = {}
+    def knn(a, b, k=1, ord=2, dim=-1):
+        seen['knn_args'] = (a, b); return dist, idx
+    class Tr:
+        def unsqueeze(self, d): return self
+        def __matmul__(self, o): return o
+    def svdtf(a, b):
+        seen.setdefault('svdtf', []).append((a, b)); return Tr()
+    env.stub(icp, 'knn', knn); env.stub(icp, 'svdtf', svdtf)
+    class OneStep:
+        def __init__(self): self.k = 0; self.losses = []
+        def reset(self): self.k = 0
+        def continual(self): return self.k == 0
+        def step(self, loss): self.losses.append(loss); self.k += 1
+    ctrl = OneStep()
+    m = icp.ICP(stepper=ctrl)
+    m(src, tgt)
+    env.holds('one controller step per iteration', len(ctrl.losses) == 1)
+    loss = ctrl.losses[0]
+    env.holds('the loss has one entry per batch element', tuple(loss.shape) == (B,))
+    env.eq('entry b is the mean closest-point distance of batch element b', loss, dist.squeeze(-1).mean(-1))
+    a0, b0 = seen['svdtf'][0]
+    env.eq('the iteration fits the current points to their nearest targets', b0, T.stack([tgt[0][[1, 0]], tgt[1][[0, 1]]], 0) if env.sym else T.stack([tgt[0][[1, 0]], tgt[1][[0, 1]]], 0))
+
+
 @bounded('C17.exact_recovery', functions=[f'{GEO}:svdtf', f'{GEO}:svdstf'])
 def exact(rng, tier):
     """exact correspondences under a true transform are reproduced (real code, float64); planar / collinear / minimal sets"""
